@@ -58,7 +58,14 @@ def run(tier):
     for o, (text, opts, e, side) in zip(drv.batch(reqs), meta):
         tool = e["cost_in"] if side == "in" else e["cost_out"]
         c["cost-comparisons"] += 1
-        if o.split() != [str(x) for x in tool]:
+        toks = e["in_tokens"] if side == "in" else e["out_tokens"]
+        ref = o.split()
+        # the tool's block-level gas counts repeated storage/account accesses as warm: gas is compared only where that cannot matter
+        if any(x in toks.split() for x in ("SLOAD", "SSTORE", "E1:BALANCE", "E1:EXTCODESIZE", "E1:EXTCODEHASH")) or "X:EXTCODECOPY" in toks:
+            ref, toolv = ref[1:], [str(x) for x in tool][1:]
+        else:
+            toolv = [str(x) for x in tool]
+        if ref != toolv:
             violations.append({"kind": "push0-pricing-inconsistent", "input": text, "options": opts,
                                "what": "%s side of %s under %s: tool prices (gas,bytes,len)=%s, reference with the same flag %s" % (side, text, opts, tool, o)})
     # (c) contract selection
